@@ -13,6 +13,7 @@ NOTE = ("Decides the listed necessary structural conditions on every path / call
 
 # property id -> (claim text, design section)   | None => not applicable (reason)
 CLAIMS = {
+ "C01": ("Structural necessary conditions of ordered, loss-free, non-inventing incremental replay: single producer/consumer on the command channel; tail-append / forward-iteration / reset-after-success queue discipline; one connection; enumerated constant commands and synthesised items; on every path of the parser loop and of a sender iteration an item is dropped only for a documented reason; database mapping decided in one function; non-replayable command table agrees with its documentation and is disjoint from data commands.", "3/C01"),
  "C02": ("Structural necessary conditions of crash-safe resume: MULTI…checkpoint…EXEC ordering on one batcher value, checkpoint after the batch in ticker mode, and — on every path of one sender iteration with constant flags pruned — no flush stores the offset of an item that is not part of the flushed batch (except keep-alive and EXEC); resume database and newest-checkpoint selection. A unit test samples one stream; the rule covers all paths of the sender loop.", "3/C02"),
  "C07": ("Sentinel non-flow: no negative constant reaches the stored resume position (checkpoint HSET argument or in-memory checkpoint) without a dominating comparison excluding it, traced inter-procedurally through the sender closures; every other origin is the offset of a consumed stream item; full-sync completion stores the snapshot offset.", "3/C07"),
  "C09": ("In transactional mode every flush on every path of a sender iteration is requested by the transaction state machine or happens with the in-transaction flag known false (loop invariant established inductively); the flag is cleared only after a successful flush; the state machine flushes inside a transaction only on EXEC; the resume position never lands between MULTI and EXEC.", "3/C09"),
